@@ -435,13 +435,29 @@ def decide(assumptions, goal, timeout_ms, stats=None):
         s.add(zb(a))
     s.add(z3.Not(zb(goal)))
     t0 = time.time()
-    r = str(s.check())
+    r = _check(s, timeout_ms)
     dt = time.time() - t0
     m = s.model() if r == "sat" else None
     if stats is not None:
         stats.q[r] = stats.q.get(r, 0) + 1
         stats.solver_s += dt
     return r, m, dt
+
+
+def _check(s, timeout_ms):
+    """s.check() with a watchdog: z3's own `timeout` is not always honoured inside nonlinear reasoning"""
+    import threading
+
+    wd = threading.Timer(timeout_ms / 1000.0 + 2.0, s.ctx.interrupt)
+    wd.daemon = True
+    wd.start()
+    try:
+        r = str(s.check())
+    except z3.Z3Exception:
+        r = "unknown"
+    finally:
+        wd.cancel()
+    return r if r in ("sat", "unsat") else "unknown"
 
 
 def decide_split(assumptions, goal, dims, B, budget_ms, stats=None, case_ms=10000):
@@ -466,7 +482,7 @@ def decide_split(assumptions, goal, dims, B, budget_ms, stats=None, case_ms=1000
         s.set("timeout", int(max(1, min(case_ms, left))))
         s.add(f)
         t1 = time.time()
-        r = str(s.check())
+        r = _check(s, max(1, min(case_ms, left)))
         if stats is not None:
             stats.q[r] = stats.q.get(r, 0) + 1
             stats.solver_s += time.time() - t1
